@@ -26,6 +26,7 @@ func emitRest(dir string, t *Tables) {
 	emitSplit(dir, thePkg)
 	emitWalk(dir, thePkg)
 	emitBuild(dir, thePkg)
+	emitCreate(dir, thePkg)
 	emitEffects(dir, thePkg)
 	emitSchema(dir, thePkg, theRepo)
 	emitRules(dir, t)
